@@ -147,14 +147,15 @@ def u_read_list(ctx, index):
   if newt is None:
     return
   fresh_read = z3.And(exists, z3.BoolVal(not mtime_fails), mtime > last)
-  ctx.check('C12/read_list/missing_file_empties_the_list', z3.Implies(z3.Not(exists), z3.Length(newt) == 0))
-  ctx.check('C12/read_list/unchanged_file_keeps_the_list', z3.Implies(z3.And(exists, z3.Not(fresh_read)), newt == old_list))
+  # (the reload policy -- missing / unchanged file, remembered mtime -- is informative: C12 is about what a list file means)
+  ctx.check('aux/read_list/missing_file_empties_the_list', z3.Implies(z3.Not(exists), z3.Length(newt) == 0))
+  ctx.check('aux/read_list/unchanged_file_keeps_the_list', z3.Implies(z3.And(exists, z3.Not(fresh_read)), newt == old_list))
   if 'exit' in st:
     ctx.cover('read_list/file_read')
     (srcidx, dstidx) = st['exit']
     for (label, f) in CM.ordered_filter_inv(newt, lines.term, lines.length(), srcidx, dstidx, accepted, same):
       ctx.check('C12/read_list/' + label.replace('sections', 'lines').replace('section', 'line'), f)
-    ctx.check('C12/read_list/remembers_the_mtime', rl.fields['rules_last_read'] == mtime)
+    ctx.check('aux/read_list/remembers_the_mtime', rl.fields['rules_last_read'] == mtime)
 
 
 def u_metric_received(ctx, index):
@@ -183,7 +184,7 @@ def u_metric_received(ctx, index):
   ctx.check('C12/metricReceived/filtered_iff',
             z3.And(z3.Implies(filtered, z3.BoolVal(len(evs) == 0)),
                    z3.Implies(z3.Not(filtered), z3.BoolVal(len(evs) == 1))))
-  ctx.check('C12/metricReceived/counters',
+  ctx.check('aux/metricReceived/counters',
             z3.And(z3.Implies(B, z3.BoolVal(incs == ['blacklistMatches'])),
                    z3.Implies(z3.And(z3.Not(B), W), z3.BoolVal(incs == ['whitelistRejects'])),
                    z3.Implies(z3.And(z3.Not(B), z3.Not(W)), z3.BoolVal(incs == []))))
